@@ -17,6 +17,8 @@
 // Private members are read (never written, except the documented public data members a client sets: init, body, home ...)
 // through -fno-access-control: Sequence::get, Iterator::seq/index, Optional::ptr, Basic_specifier::spec.
 #include <ipr/impl>
+#include <algorithm>
+#include <iterator>
 #include <ipr/traversal>
 #include <deque>
 #include <functional>
@@ -351,6 +353,28 @@ namespace {
                      + flag(s.position(0) != s.position(1)) + flag(s.begin() != foreign) + flag(It{ } != It{ })));
          L.check("seq_preinc_returns_self", pre_ret);
          L.check("seq_postinc_returns_old", post_ret);
+         // the same walk left to the standard library: <iterator> and <algorithm> choose their strategy from what the Iterator
+         // declares about itself (category, difference) -- whatever they choose must see the same n elements in the same order
+         bool std_walk = true;
+         try {
+            if (static_cast<std::size_t>(std::distance(s.begin(), s.end())) != n) std_walk = false;
+            if (std::next(s.begin(), static_cast<std::ptrdiff_t>(n)) != s.end()) std_walk = false;
+            std::size_t k = 0;
+            std::for_each(s.begin(), s.end(), [&](const T& x) { if (k >= n or &x != &s.get(k)) std_walk = false; ++k; });
+            if (k != n) std_walk = false;
+            if (static_cast<std::size_t>(std::count_if(s.begin(), s.end(), [](const T&) { return true; })) != n) std_walk = false;
+            if (std::none_of(s.begin(), s.end(), [](const T&) { return true; }) != (n == 0)) std_walk = false;
+            for (std::size_t i = 0; i < n; ++i) {
+               auto it = std::find_if(s.begin(), s.end(), [&](const T& x) { return &x == &s.get(i); });
+               if (it == s.end() or &*it != &s.get(i)) std_walk = false;
+               if (static_cast<std::size_t>(std::distance(s.begin(), it)) > i) std_walk = false;      // (the first such element)
+            }
+            std::vector<const T*> copy;
+            std::transform(s.begin(), s.end(), std::back_inserter(copy), [](const T& x) { return &x; });
+            if (copy.size() != n) std_walk = false;
+         }
+         catch (const std::logic_error&) { std_walk = false; }
+         L.check("seq_walked_by_the_standard_library", std_walk);
       }
 
       // ------------------------------------------------------------------------------------------------ node observers
